@@ -50,7 +50,7 @@ MIN_HITS = {
         'reject:padded-features': 60, 'reject:bsb-preprocessor': 50, 'reject:bsb-features': 50,
         'mon:multiset-shuffle': 2500, 'mon:repro-shuffle': 2500, 'mon:order-shuffle': 400, 'mon:repeat-iter': 300,
         'mon:bsbshape': 2500, 'mon:multiset-bsb': 2500, 'mon:bsbrows': 2500, 'mon:repro-bsb': 2500, 'mon:order-bsb': 300,
-        'mon:fdstream': 900, 'mon:repro-fdstream': 150, 'mon:clients': 200, 'mon:repro-clients': 200, 'mon:readonly': 4000,
+        'mon:fdstream': 900, 'fds:seed=0': 10, 'mon:repro-fdstream': 150, 'mon:clients': 200, 'mon:repro-clients': 200, 'mon:readonly': 4000,
         'padded:fits-in-buffer': 1000, 'padded:exactly-fills': 500, 'padded:spans-several-batches': 1000,
         'padded:leaves-exact-batch': 1000, 'padded:empty-client': 1000, 'padded:total=0': 20, 'repeat:copying': 40,
         'repeat:container': 50, 'shuffle:buffer>len': 100, 'shuffle:buffer=len': 50, 'shuffle:buffer<len': 200,
@@ -62,7 +62,7 @@ MIN_HITS = {
         'reject:padded-preprocessor': 900, 'reject:padded-features': 900, 'reject:bsb-preprocessor': 700,
         'reject:bsb-features': 700, 'mon:multiset-shuffle': 25000, 'mon:repro-shuffle': 25000, 'mon:order-shuffle': 4000,
         'mon:repeat-iter': 900, 'mon:bsbshape': 20000, 'mon:multiset-bsb': 20000, 'mon:bsbrows': 20000,
-        'mon:repro-bsb': 20000, 'mon:order-bsb': 3000, 'mon:fdstream': 18000, 'mon:repro-fdstream': 3000,
+        'mon:repro-bsb': 20000, 'mon:order-bsb': 3000, 'mon:fdstream': 18000, 'fds:seed=0': 200, 'mon:repro-fdstream': 3000,
         'mon:clients': 4000, 'mon:repro-clients': 4000, 'mon:readonly': 35000,
         'padded:fits-in-buffer': 15000, 'padded:exactly-fills': 8000, 'padded:spans-several-batches': 20000,
         'padded:leaves-exact-batch': 12000, 'padded:empty-client': 12000, 'padded:total=0': 200, 'repeat:copying': 130,
@@ -463,6 +463,7 @@ def shuffle_point(ctx, cd, rng, n, buf, kind):
   judged = n >= 4 and buf >= 2
   nseeds = order_seeds(n) if judged else 2
   seeds = [int(s) for s in rng.randint(0, 2**32 - 1, size=nseeds)]
+  seeds[0] = 0 if rng.rand() < 0.5 else seeds[0]   # seed 0: a fixed but falsy seed
   wit = {'length': n, 'buffer_size': buf, 'base': kind, 'seeds': seeds}
   identity = 0
   ok_run = True
@@ -607,7 +608,9 @@ def fds_point(ctx, fedjax, cd, rng):
   mapping = dict(zip(ids, raws))
   cbuf = int(rng.randint(1, m + 3))
   ebuf = int(rng.randint(1, total + 3))
-  seed = None if rng.rand() < 0.2 else int(rng.randint(0, 2**32 - 1))
+  # boundary seeds are forced: 0 is a fixed seed that is falsy in Python, 1 and 2**32-1 are the ends of the range
+  u = rng.rand()
+  seed = None if u < 0.2 else (int([0, 1, 2**32 - 1][rng.randint(3)]) if u < 0.45 else int(rng.randint(0, 2**32 - 1)))
   nbat = -(-total // b) + int(rng.randint(0, 2 * (-(-total // b)) + 3))
   wit = {'batch_size': b, 'sizes': sizes, 'client_ids': ids, 'client_buffer_size': cbuf, 'example_buffer_size': ebuf,
          'seed': seed, 'batches_taken': nbat, 'features': [kd[0] for kd in kinds], 'chain': descr}
@@ -659,7 +662,7 @@ def fds_point(ctx, fedjax, cd, rng):
                 wit)
   ctx.check([gen.digest(x) for x in raws] == digs, 'readonly/raw-mutated', 'raw client arrays changed', wit)
   ctx.case_done(('fds', b, tuple(sizes), cbuf, ebuf, seed, nbat), sample=wit,
-                klass=['fds:seed=None' if seed is None else 'fds:seeded', 'fds:empty-client' if 0 in sizes else 'fds:no-empty'])
+                klass=['fds:seed=None' if seed is None else 'fds:seeded', 'fds:seed=0' if seed == 0 else 'fds:seed!=0', 'fds:empty-client' if 0 in sizes else 'fds:no-empty'])
 
 
 # ----------------------------------------------------------------------------- driver
